@@ -5,6 +5,7 @@ import (
 	"context"
 	"encoding/json"
 	"fmt"
+	"github.com/ovh/kmip-go/kmipserver"
 	"slices"
 	"strings"
 
@@ -25,7 +26,10 @@ type C09Sc struct {
 	// SupportedSpelling: how the set is handed to SetSupportedProtocolVersions: 0 ascending, 1 descending, 2 with its
 	// first element repeated at the end, 3 every element twice
 	SupportedSpelling int `json:"supported_spelling,omitempty"`
-	Chunk             int `json:"chunk,omitempty"`
+	// Sibling: another executor of the same process is restricted to this set (bitmask) before (1..31) the executor
+	// under test is created, or after it (negative): executors are independent of each other
+	Sibling int `json:"sibling,omitempty"`
+	Chunk   int `json:"chunk,omitempty"`
 }
 
 var c09Outcomes = []ItemSc{
@@ -83,6 +87,12 @@ func genC09(g *simrt.Tape, tier string) any {
 	if g.Draw(4) == 0 {
 		sc.Supported = 1 + g.Draw(31)
 		sc.SupportedSpelling = g.Draw(4)
+	}
+	if g.Draw(5) == 0 {
+		sc.Sibling = 1 + g.Draw(31)
+		if g.Draw(2) == 0 {
+			sc.Sibling = -sc.Sibling
+		}
 	}
 	sc.Chunk = []int{simnet.ChunkMax, simnet.ChunkRandom}[g.Draw(2)]
 	return sc
@@ -259,7 +269,13 @@ func respDesc(resp *kmip.ResponseMessage) string {
 func execC09(x *X, scAny any) {
 	sc := scAny.(*C09Sc)
 	s := x.S
+	if sc.Sibling > 0 {
+		kmipserver.NewBatchExecutor().SetSupportedProtocolVersions(setOf(sc.Sibling)...)
+	}
 	w := newServerWorld(x)
+	if sc.Sibling < 0 {
+		kmipserver.NewBatchExecutor().SetSupportedProtocolVersions(setOf(-sc.Sibling)...)
+	}
 	supported := []kmip.ProtocolVersion{kmip.V1_0, kmip.V1_1, kmip.V1_2, kmip.V1_3, kmip.V1_4}
 	if sc.Supported != 0 {
 		supported = setOf(sc.Supported)
@@ -412,6 +428,13 @@ func init() {
 					rs.Items = items[:i%3]
 				}
 				return &C09Sc{Reqs: []ReqSc{rs}}
+			}},
+			{Name: "sibling-executors", Count: func(string) int { return 2 * 5 * 5 }, Scenario: func(_ string, i int) any {
+				sib := []int{1, 2, 16, 5, 24}[i%5]
+				if i >= 25 {
+					sib = -sib
+				}
+				return &C09Sc{Sibling: sib, Reqs: []ReqSc{{Version: (i / 5) % 5, Option: 1, Items: []ItemSc{{Tok: "ok"}, {Tok: "ok"}, {Tok: "ok"}}}}}
 			}},
 			{Name: "supported-set-spellings", Count: func(string) int { return 3 * 4 * 9 }, Scenario: func(_ string, i int) any {
 				return &C09Sc{Supported: []int{5, 20, 31}[i%3], SupportedSpelling: (i / 3) % 4,
